@@ -243,7 +243,7 @@ def run(ctx):
                 route = routes[offset % 2]
                 run_case(ctx, rng, t, libs[route], assign, fb, offset, route)
     # ---- seeded random -----------------------------------------------------------------------------------------------------
-    for i in range(ctx.size(1500, 60_000) // ctx.nshards):
+    for i in range(ctx.size(10_000, 3_000_000) // ctx.nshards):
         charset = rng.choice(CHARSETS)
         unit = ref.CODE_UNIT[charset]
         if rng.random() < 0.3:
